@@ -87,3 +87,24 @@ Theorem C02_layout_output_is_the_input : forall (A : Type) (eqA : A -> A -> bool
   Permutation (map (id_pair A ids) oes) es.
 Proof. exact G7_layout_output. Qed.
 Print Assumptions C02_layout_output_is_the_input.
+
+(* ---------- every positioner, Brandes-Koepf included (Model/PipelineBK.v: [layout_x bk] is Layout with
+   PositioningBrandesKoepf and WithBrandesKoepfLayout(bk) when the positioner is [OtherPositioner], and is [layout]
+   otherwise, BKPipeline.layout_x_eq) ---------- *)
+From Autog Require Import PipelineBK BKPipeline BKPipeline2.
+
+Theorem C02_component_end_to_end_any_positioner : forall bk o g g' x, component_input g -> modelled_p5 (o_p5 o) ->
+  layout_component_x bk o g = Ok (g', x) -> E1_statement g g'.
+Proof. exact Gx1_output_graph_any. Qed.
+Print Assumptions C02_component_end_to_end_any_positioner.
+
+Theorem C02_layout_output_is_the_input_any_positioner : forall (A : Type) (eqA : A -> A -> bool), (forall x y, eqA x y = true <-> x = y) ->
+  forall bk o fixed sizes es ids ns oes xs, modelled_p5 (o_p5 o) ->
+  layout_x A eqA bk o fixed sizes es = Ok (ids, (ns, oes, xs)) -> o_virtual o = false ->
+  NoDup ids /\ (forall x, In x ids <-> exists p, In p es /\ In x p) /\
+  Permutation (map on_id ns) (iota 0 (length ids)) /\
+  (forall a, In a ns -> exists x, nth_error ids (on_id a) = Some x /\
+                                  (on_w a, on_h a) = SizesProofs.size_of A eqA fixed sizes x (0, 0)%Q) /\
+  Permutation (map (id_pair A ids) oes) es.
+Proof. exact Gx7_layout_output. Qed.
+Print Assumptions C02_layout_output_is_the_input_any_positioner.
